@@ -263,13 +263,18 @@ impl DifficultyValues {
         n_diff_objects: &mut usize,
         mods: &GameMods,
     ) -> TaikoDifficultyObjects {
+        let total_hits = converted.hit_objects.iter().filter(|h| h.is_circle()).count() as u32;
+
         let mut hit_objects_iter = converted
             .hit_objects
             .iter()
             .zip(converted.hit_sounds.iter())
             .map(|(h, s)| TaikoObject::new(h, *s))
             .inspect(|h| {
-                if *max_combo < take {
+                // Once the last hit of the map has been passed, the trailing
+                // non-hit objects belong to the passed part as well so that
+                // passing all hits equals not limiting the objects at all.
+                if *max_combo < take || (take > 0 && *max_combo >= total_hits) {
                     *n_diff_objects += 1;
                     *max_combo += u32::from(h.is_hit());
                 }
